@@ -757,3 +757,22 @@ func (i *interpreter) symStringRead(str string, idx value, site string) *value {
 	}
 	return i.symTableRead(tbl, idx, site)
 }
+
+// symTableReadAddr is symTableRead for an IndexAddr: only when every use of
+// the address is a load (a store through it could not be honoured).
+func (i *interpreter) symTableReadAddr(instr *ssa.IndexAddr, tbl []value, idx value, site string) *value {
+	if _, ok := idx.(sym); !ok {
+		return nil
+	}
+	refs := instr.Referrers()
+	if refs == nil {
+		return nil
+	}
+	for _, r := range *refs {
+		u, ok := r.(*ssa.UnOp)
+		if !ok || u.Op != token.MUL {
+			return nil
+		}
+	}
+	return i.symTableRead(tbl, idx, site)
+}
